@@ -129,8 +129,36 @@ def run(ctx: Ctx) -> None:
     L0 = Location(uri="u", range=R0)
     foreign = [None, 0, 1, (1, 2), [1, 2], "1:2", {"line": 1, "character": 2}, 1.5, object(), Lookalike(1, 2), t.TextEdit(range=R0, new_text="")]
     subjects = [("Position", P0), ("Range", R0), ("Location", L0)]
+
+    def lookalikes(x: Any) -> List[Any]:
+        """unrelated objects carrying the same attribute names and values as x: plain namespace, namedtuple,
+        a same-shaped attrs class, and every *other* protocol class whose fields include x's fields."""
+        import collections as _c
+        import types as _t
+        names = [a.name for a in attrs.fields(type(x))]
+        vals = {n: getattr(x, n) for n in names}
+        out: List[Any] = [_t.SimpleNamespace(**vals), _c.namedtuple("Tup", names)(**vals),
+                          attrs.make_class("Shape", names)(**vals), vals]
+        from .. import tvgen as _tv
+        from ..hyp import mini as _mini
+        for cname, cls in vars(t).items():
+            if isinstance(cls, type) and attrs.has(cls) and cls is not type(x) and cname in sub.model.structs:
+                fn = {a.name for a in attrs.fields(cls)}
+                if set(names) <= fn:
+                    made: List[Any] = []
+                    _mini(_tv.value_strategy(sub.objects, ("struct", cname), _tv.GenCfg(mode="min", decimal_ints=False)), 1,
+                          (ctx.seed, "C20", "lookalike", cname), lambda v: made.append(v[0]))
+                    try:
+                        out.append(attrs.evolve(sub.build(made[0]), **vals))
+                    except Exception:
+                        pass
+        return out
+
+    n_lookalikes = 0
     for (n1, x) in subjects:
-        others = foreign + [y for n2, y in subjects if n2 != n1]
+        extra = lookalikes(x)
+        n_lookalikes += len(extra)
+        others = foreign + extra + [y for n2, y in subjects if n2 != n1]
         for f in others:
             evaluations += 1
             case = {"subject": n1, "foreign": repr(f)}
@@ -156,6 +184,7 @@ def run(ctx: Ctx) -> None:
     ctx.coverage.update({
         "evaluations": evaluations, "distinct_nontrivial": len(distinct), "rule": RULE, "samples": samples,
         "grid_pairs_exhaustive": grid_pairs, "random_pairs": n, "random_range_location_pairs": n,
+        "lookalike_foreign_objects": n_lookalikes,
         "exhaustive": False,
     })
     ctx.assumptions = ["coordinates are valid uintegers (the constructor rejects others, C12)"]
